@@ -111,7 +111,30 @@ def dominating_guards(prog, b, point):
                 out.append((op, strip(d0.args[1]), strip(d0.args[2])))
             elif d0.kind == 'call' and d0.callee_name() == 'is_empty':
                 out.append(('is_empty' if truth else 'not_empty', strip(d0.args[0]), None))
+        # integer switch (`match x { 0 => .., n => .. }`): on the otherwise edge x differs from every listed value
+        if t['k'] == 'switch' and (t.get('dty') or '') not in ('bool',) and d0.kind not in ('bin',) and not neg:
+            listed = [tv for tv, _ in t['targets']]
+            oth = t['otherwise']
+            if cfg.pred[oth] == [s] and cfg.dominates(oth, point[0]) and oth not in [tb for _, tb in t['targets']]:
+                for tv in listed:
+                    out.append(('Ne', d0, _IntConst(tv)))
+            for tv, tb in t['targets']:
+                if cfg.pred[tb] == [s] and cfg.dominates(tb, point[0]) and tb != oth:
+                    out.append(('Eq', d0, _IntConst(tv)))
     return out
+
+
+class _IntConst:
+    """stand-in for a constant Val in guards derived from integer switches"""
+    kind = 'const'
+
+    def __init__(self, v):
+        self.args = (v, None, str(v))
+        self.id = -1000 - v
+        self.ty = 'int'
+
+    def is_const(self, value=None):
+        return value is None or self.args[0] == value
 
 
 def same_val(a, b):
